@@ -1,19 +1,22 @@
 #!/bin/bash
 # usage: tools/mutest.sh <patch.diff> <property> [extra vcheck args]
-# applies a seeded change to /repo, runs the check, and ALWAYS reverts /repo.
-# Evidence of these sensitivity runs goes to a scratch directory, never to /verif/evidence.
+# Runs a check against a seeded change WITHOUT touching /repo's working tree: the change is
+# applied to a fresh scratch worktree of /repo HEAD, the check is pointed at it with -repo, and
+# the worktree is removed afterwards. Evidence of these sensitivity runs goes to a scratch
+# directory, never to /verif/evidence.
 set -u
-patch=$1; prop=$2; shift 2
-cd /repo || exit 2
-if ! git diff --quiet; then echo "repo dirty, refusing"; exit 2; fi
-if ! git apply "$patch" 2>/tmp/mutest.apply.err; then
-  echo "APPLY-FAILED"; cat /tmp/mutest.apply.err; git checkout -- .; exit 2
-fi
-cd /verif
+patch=$(readlink -f "$1"); prop=$2; shift 2
+wt=$(mktemp -d /tmp/mutest-wt-XXXXXX); rmdir "$wt"
+git -C /repo worktree add -q --detach "$wt" HEAD || exit 2
 export VERIF_EVIDENCE_DIR=$(mktemp -d /tmp/mutest-ev-XXXXXX)
-./bin/vcheck -property "$prop" "$@" 2>&1 | grep -v "^instrumented" | tail -14
+cleanup() { git -C /repo worktree remove --force "$wt" 2>/dev/null; rm -rf "$wt" "$VERIF_EVIDENCE_DIR"; }
+trap cleanup EXIT
+if ! git -C "$wt" apply "$patch" 2>/tmp/mutest.apply.err.$$; then
+  echo "APPLY-FAILED"; cat /tmp/mutest.apply.err.$$; rm -f /tmp/mutest.apply.err.$$; echo "mutest: exit=2"; exit 2
+fi
+rm -f /tmp/mutest.apply.err.$$
+cd /verif
+./bin/vcheck -repo "$wt" -property "$prop" "$@" 2>&1 | grep -v "^instrumented" | tail -14
 rc=${PIPESTATUS[0]}
-rm -rf "$VERIF_EVIDENCE_DIR"
-git -C /repo checkout -- .; git -C /repo clean -fdq
 echo "mutest: exit=$rc"
 exit $rc
